@@ -13,7 +13,12 @@
 use super::*;
 use debugger::variable::value::{ScalarValue, SupportedScalar};
 
-fn scalar_meta(s: &ScalarValue, addr: usize) -> Option<WriteMeta> {
+/// same shape as the scalar arm of data::WriteMeta, without the Rc<ComplexType> of the composite arm
+/// (its drop glue - a type graph with HashMaps - is what made CBMC run for 20 minutes)
+enum LightMeta { Scalar { addr: usize, kind: ScalarKind } }
+
+fn scalar_meta(s: &ScalarValue, addr: usize) -> Option<LightMeta> {
+    use LightMeta as WriteMeta;   // the spliced arms construct `WriteMeta::Scalar { addr, kind }`
     (/*@@FRAGMENT:KINDS*/).0
 }
 
@@ -22,11 +27,10 @@ fn kind_of(v: SupportedScalar) -> Option<ScalarKind> {
     let meta = scalar_meta(&s, 0x1000);
     core::mem::forget(s);
     match meta {
-        Some(WriteMeta::Scalar { addr, kind }) => {
+        Some(LightMeta::Scalar { addr, kind }) => {
             assert!(addr == 0x1000, "C15.scalar_width.E0 the write goes to the variable's own address");
             Some(kind)
         }
-        Some(other) => { core::mem::forget(other); None }
         None => None,
     }
 }
